@@ -605,13 +605,6 @@ impl State {
             ip: self.code_origin(),
             mode,
         };
-        if tmp.mode == ContextMode::Eval
-            && self.ctx.mode == ContextMode::Eval
-            && self.ctx.ip < self.code.len()
-        {
-            // code compiled earlier and not run yet comes first, as it would with run()
-            tmp.ip = self.ctx.ip;
-        }
         if self.ctx.mode == tmp.mode {
             tmp.ds_len = self.ctx.ds_len;
         } else {
